@@ -22,6 +22,7 @@ import (
 // tried against a scratch worktree without touching /repo or the committed evidence.
 var repoDir = "/repo"
 var outDir = ""
+
 const modPath = "github.com/itchio/wharf"
 
 // Config is harness/<prop>/config.json.
@@ -38,21 +39,22 @@ type Config struct {
 }
 
 type HarnessConfig struct {
-	Name        string           `json:"name"`
-	Tiers       []string         `json:"tiers"`  // quick, thorough
-	Params      map[string][]int `json:"params"` // cartesian grid
-	ParamSets   []map[string]int `json:"param_sets"`
-	Skip        string           `json:"skip"`
-	MaxSteps    int64            `json:"max_steps"`
-	MaxPaths    int              `json:"max_paths"`
-	Preemptions *int             `json:"preemptions"`
-	Scale       string           `json:"scale"` // name of a scale set ("" = none)
-	Note        string           `json:"note"`
-	Bounds      string           `json:"bounds"`
-	Expect      string           `json:"expect"`   // "violation" for vacuity witnesses
-	Concrete    int              `json:"concrete"` // number of concrete translator-validation runs
-	MaxSeconds  int              `json:"max_seconds"`
-	NoValidate  bool             `json:"novalidate"` // outcome is schedule-dependent natively: not used for translator validation
+	Name         string           `json:"name"`
+	Tiers        []string         `json:"tiers"`  // quick, thorough
+	Params       map[string][]int `json:"params"` // cartesian grid
+	ParamSets    []map[string]int `json:"param_sets"`
+	Skip         string           `json:"skip"`
+	MaxSteps     int64            `json:"max_steps"`
+	MaxPaths     int              `json:"max_paths"`
+	MaxDecisions int              `json:"max_decisions"`
+	Preemptions  *int             `json:"preemptions"`
+	Scale        string           `json:"scale"` // name of a scale set ("" = none)
+	Note         string           `json:"note"`
+	Bounds       string           `json:"bounds"`
+	Expect       string           `json:"expect"`   // "violation" for vacuity witnesses
+	Concrete     int              `json:"concrete"` // number of concrete translator-validation runs
+	MaxSeconds   int              `json:"max_seconds"`
+	NoValidate   bool             `json:"novalidate"` // outcome is schedule-dependent natively: not used for translator validation
 }
 
 type ScaleRule struct {
@@ -327,6 +329,9 @@ func (d *driver) explore(prog *interp.Program, insts []instance) []*result {
 				}
 				if in.h.MaxPaths > 0 {
 					lim.MaxPaths = in.h.MaxPaths
+				}
+				if in.h.MaxDecisions > 0 {
+					lim.MaxDecisions = in.h.MaxDecisions
 				}
 				if in.h.Preemptions != nil {
 					lim.Preemptions = *in.h.Preemptions
